@@ -817,8 +817,10 @@ class Interp:
                 v = v.target
             elif v.kind == "ref":
                 v = self.read(path, v.fid, v.local, v.projs)
-            if v.kind == "struct" and v.ty.startswith("["):
-                return IntV(len(v.fields), "usize")
+            if v.kind == "struct" and (v.ty.startswith("[") or norm_ty(v.ty).startswith("Vec<")):
+                return IntV(len(v.fields), "usize")      # array / slice / vector viewed as a slice (entry-list model)
+            if v.kind == "struct" and v.ty == "SymLenVec<u8>":
+                return IntV(v.fields[0].term, "usize")
             if v.kind == "struct" and v.ty == "SymSlice":
                 return IntV(v.fields[0].term, "usize")       # slice of symbolic length (contents not modelled)
             raise Refuse("Len of %r" % (v,))
